@@ -133,14 +133,16 @@ def gen_overlay(bdir, sims):
     return ov
 
 
-def build_binary(bdir, ov, pkgkey):
+def build_binary(bdir, ov, pkgkey, tags=()):
     """pkgkey: 'world' or an inpkg dir name. Returns path of the test binary."""
     os.makedirs(os.path.join(bdir, 'bin'), exist_ok=True)
     out = os.path.join(bdir, 'bin', pkgkey + '.test')
     env = goenv()
     if pkgkey == 'world':
         cwd = os.path.join(VERIF, 'sim')
-        cmd = [GO, 'test', '-c', '-vet=off', '-overlay', ov, '-o', out, '.']
+        # world workloads under development carry a build tag of their own, so that a half-written file of one
+        # workload cannot break the build of another; a check builds with the tags of the sims it runs
+        cmd = [GO, 'test', '-c', '-vet=off', '-tags', ','.join(sorted(tags)) or 'none', '-overlay', ov, '-o', out, '.']
     else:
         rel = '' if pkgkey == 'root' else pkgkey.replace('__', '/')
         cwd = os.path.join(REPO, rel)
@@ -163,11 +165,12 @@ class Builder:
         os.makedirs(self.bdir, exist_ok=True)
         self.ov = gen_overlay(self.bdir, sims)
         self.bins = {}
+        self.tags = sorted(set(SIMS[x]['tag'] for x in sims if SIMS[x].get('tag')))
 
     def binary(self, sim):
         key = SIMS[sim]['pkg']
         if key not in self.bins:
-            self.bins[key] = build_binary(self.bdir, self.ov, key)
+            self.bins[key] = build_binary(self.bdir, self.ov, key, self.tags)
         return self.bins[key]
 
     def scratch(self, name):
@@ -784,7 +787,7 @@ def main(argv):
         if a.cmd == 'setup':
             b = Builder('setup', sorted(SIMS))
             for key in sorted(set(v['pkg'] for v in SIMS.values())):
-                b.bins[key] = build_binary(b.bdir, b.ov, key)
+                b.bins[key] = build_binary(b.bdir, b.ov, key, b.tags)
             print('setup ok')
             return 0
         if a.cmd == 'check':
